@@ -5,7 +5,7 @@ first-match semantics.  The rule evaluates that decision list *statically* (patt
 against a finite abstract input space, no calamine code is run) and checks the clauses the property
 states: escaped characters, quoted text, later sections and bracketed prefixes never count as date
 tokens; date letters outside of them do."""
-from .kit import walk, walk_k, unwrap, peel, loc, path_local, path_def, lit_value, pat_bindings, norm
+from .kit import walk, walk_k, unwrap, peel, loc, path_local, path_def, lit_value, pat_bindings, norm, field_chain
 from .r_tables import variants_built
 
 
@@ -47,20 +47,31 @@ def _match_pat(p, v):
 _CANON = {}
 
 
+def _sv(e):
+    """name of a state variable: a local (`escaped`) or a field of a local state struct (`scan.escaped`)"""
+    pl = path_local(e)
+    if pl:
+        return pl[0]
+    fc = field_chain(e)
+    if fc and fc[1]:
+        return fc[1][-1]
+    return None
+
+
 def _effects(body, names):
     """effects of an arm body: set of strings"""
     out = set()
     for n in walk(body):
         k = n.get("k")
         if k == "Assign":
-            pl = path_local(n["l"])
-            if pl:
+            nm = _sv(n["l"])
+            if nm:
                 v = lit_value(n["r"])
-                out.add("%s=%s" % (_CANON.get(pl[0], pl[0]), v if v is not None else "expr"))
+                out.add("%s=%s" % (_CANON.get(nm, nm), v if v is not None else "expr"))
         elif k == "AssignOp":
-            pl = path_local(n["l"])
-            if pl:
-                out.add("%s%s=" % (_CANON.get(pl[0], pl[0]), n["op"].rstrip("=")))
+            nm = _sv(n["l"])
+            if nm:
+                out.add("%s%s=" % (_CANON.get(nm, nm), n["op"].rstrip("=")))
         elif k == "Ret":
             vs = variants_built(n, "CellFormat")
             out.add("return " + (vs[0] if vs else "?"))
@@ -85,7 +96,7 @@ def r_fmt_scan(ctx, rep):
     if m is None:
         rep.anchor_missing("R-FMT-SCAN", "the (char, escaped, quoted, am/pm, brackets) decision table")
         return
-    names = [path_local(e)[0] if path_local(e) else "?" for e in unwrap(m["scrut"])["es"]]
+    names = [_sv(e) or "?" for e in unwrap(m["scrut"])["es"]]
     try:
         i_esc, i_quote, i_br = names.index("escaped"), names.index("is_quote"), names.index("brackets")
         i_ap = names.index("ap")
